@@ -1026,29 +1026,79 @@ func workerAnswersInBody(p *Prog) (out []gFinding) {
 // there is one: the Truncate both cuts a freed tail off and pads a last sector that a mini-stream
 // write left partly filled. No path from "this sector is in use" to a successful return goes round it.
 func closePadsLastSector(p *Prog) (out []gFinding) {
-	fn := p.Func("lib/comdoc.(*ComDoc).Close")
-	if fn == nil {
+	closeFn := p.Func("lib/comdoc.(*ComDoc).Close")
+	if closeFn == nil {
 		return []gFinding{{Key: "(*ComDoc).Close", Pos: "-", OK: false, Detail: "function not found"}}
 	}
-	var truncs []ssa.CallInstruction
-	for _, b := range fn.Blocks {
-		for _, in := range b.Instrs {
-			if ci, ok := in.(ssa.CallInstruction); ok {
-				cc := ci.Common()
-				name := ""
-				if cc.IsInvoke() {
-					name = cc.Method.Name()
-				} else if sc := cc.StaticCallee(); sc != nil {
-					name = sc.Name()
+	truncsOf := func(f *ssa.Function) (truncs []ssa.CallInstruction) {
+		for _, b := range f.Blocks {
+			for _, in := range b.Instrs {
+				if ci, ok := in.(ssa.CallInstruction); ok {
+					cc := ci.Common()
+					name := ""
+					if cc.IsInvoke() {
+						name = cc.Method.Name()
+					} else if sc := cc.StaticCallee(); sc != nil {
+						name = sc.Name()
+					}
+					if name == "Truncate" {
+						truncs = append(truncs, ci)
+					}
 				}
-				if name == "Truncate" {
-					truncs = append(truncs, ci)
+			}
+		}
+		return
+	}
+	fn := closeFn
+	truncs := truncsOf(fn)
+	if len(truncs) == 0 {
+		// the step was given a name: a helper of the package that Close calls on every successful path and
+		// whose failure it hands on
+		for _, b := range closeFn.Blocks {
+			for _, in := range b.Instrs {
+				ci, ok := in.(ssa.CallInstruction)
+				if !ok {
+					continue
 				}
+				g := ci.Common().StaticCallee()
+				if g == nil || pkgOf(g) != pkgOf(closeFn) || len(g.Blocks) == 0 || len(truncsOf(g)) == 0 {
+					continue
+				}
+				// must-pass in Close: no successful return of a changed document goes round the call
+				okVia := true
+				del := map[edge]bool{}
+				for si := range ci.Block().Succs {
+					del[edge{ci.Block().Index, si}] = true
+				}
+				// the early return for an unchanged document is not concerned: it precedes every write
+				var firstWrite ssa.Instruction
+				for _, w := range p.callsIn(closeFn, "(*lib/comdoc.ComDoc).writeShortSAT", "(*lib/comdoc.ComDoc).writeDirStream", "(*lib/comdoc.ComDoc).writeSAT") {
+					if firstWrite == nil {
+						firstWrite = w
+					}
+				}
+				if firstWrite != nil {
+					seen := reachAfter(closeFn, firstWrite, del, nil)
+					for _, r := range p.successReturns(closeFn) {
+						if seen[r.Block().Index] && r.Block() != ci.Block() {
+							okVia = false
+						}
+					}
+				}
+				if ev := errValueOf(ci); ev != nil {
+					if r, _ := p.failureReachesSuccess(closeFn, ev); r != nil {
+						okVia = false
+					}
+				}
+				out = append(out, gFinding{Key: "(*ComDoc).Close runs its truncation step on every successful path and hands its failure on", Pos: p.Pos(ci.Pos()), OK: okVia,
+					Detail: "Close can succeed for a changed document without having run " + p.FName(g) + ", or although it failed: the file keeps a freed tail or ends in the middle of its last sector"})
+				fn = g
+				truncs = truncsOf(g)
 			}
 		}
 	}
 	if len(truncs) == 0 {
-		return []gFinding{{Key: "(*ComDoc).Close sets the file length", Pos: p.Pos(fn.Pos()), OK: false, Detail: "no Truncate call found"}}
+		return []gFinding{{Key: "(*ComDoc).Close sets the file length", Pos: p.Pos(closeFn.Pos()), OK: false, Detail: "no Truncate call found"}}
 	}
 	n := 0
 	for _, b := range fn.Blocks {
@@ -2688,5 +2738,151 @@ func msatSectorHoldsOneLess(p *Prog) (out []gFinding) {
 	if n == 0 {
 		out = append(out, gFinding{Key: "lib/comdoc counts master-table sectors", Pos: "-", OK: false, Detail: "no quotient of len(MSAT) found"})
 	}
+	return out
+}
+
+// ------------------------------------------------------------------------------ in-place site of PatchSet.Apply
+
+// fnVal: a value together with the function it lives in.
+type fnVal struct {
+	fn *ssa.Function
+	v  ssa.Value
+}
+
+// applyInPlaceSite: where PatchSet.Apply (or a step of it that was given a name: a helper of the
+// package reachable from Apply by static calls, applyRewrite excepted) writes into the input file.
+type applySite struct {
+	ap     *ssa.Function
+	family []*ssa.Function
+	// sinks: instructions of Apply itself that stand for the in-place writes: the WriteAt / Truncate
+	// calls, or the call of the helper that makes them
+	sinks []ssa.CallInstruction
+	// truncs: the Truncate calls with the function they are in
+	truncs []struct {
+		fn   *ssa.Function
+		call ssa.CallInstruction
+	}
+	callers map[*ssa.Function]ssa.CallInstruction // family member -> its call site (in its caller)
+	owner   map[*ssa.Function]*ssa.Function       // family member -> caller
+}
+
+func (p *Prog) applyInPlaceSite() *applySite {
+	ap := p.Func("lib/binpatch.(*PatchSet).Apply")
+	rw := p.Func("lib/binpatch.(*PatchSet).applyRewrite")
+	if ap == nil {
+		return nil
+	}
+	s := &applySite{ap: ap, callers: map[*ssa.Function]ssa.CallInstruction{}, owner: map[*ssa.Function]*ssa.Function{}}
+	s.family = []*ssa.Function{ap}
+	for i := 0; i < len(s.family) && i < 8; i++ {
+		f := s.family[i]
+		for _, b := range f.Blocks {
+			for _, in := range b.Instrs {
+				ci, ok := in.(ssa.CallInstruction)
+				if !ok {
+					continue
+				}
+				g := ci.Common().StaticCallee()
+				if g == nil || g == rw || pkgOf(g) != pkgOf(ap) || len(g.Blocks) == 0 || g.Name() == "canOverwrite" || g.Name() == "hasLinks" {
+					continue
+				}
+				if _, seen := s.owner[g]; seen || g == ap {
+					continue
+				}
+				s.owner[g] = f
+				s.callers[g] = ci
+				s.family = append(s.family, g)
+			}
+		}
+	}
+	writes := func(f *ssa.Function) []ssa.CallInstruction {
+		return p.callsIn(f, "(*os.File).WriteAt", "(*os.File).Truncate")
+	}
+	for _, f := range s.family {
+		for _, ci := range writes(f) {
+			if strings.HasSuffix(p.calleeName(ci.Common()), ".Truncate") {
+				s.truncs = append(s.truncs, struct {
+					fn   *ssa.Function
+					call ssa.CallInstruction
+				}{f, ci})
+			}
+			if f == ap {
+				s.sinks = append(s.sinks, ci)
+			}
+		}
+		if f != ap && len(writes(f)) > 0 {
+			// the call in Apply through which this helper is reached
+			g := f
+			for s.owner[g] != ap && s.owner[g] != nil {
+				g = s.owner[g]
+			}
+			if s.owner[g] == ap {
+				dup := false
+				for _, k := range s.sinks {
+					if k == s.callers[g] {
+						dup = true
+					}
+				}
+				if !dup {
+					s.sinks = append(s.sinks, s.callers[g])
+				}
+			}
+		}
+	}
+	return s
+}
+
+// expand: the values (with their functions) that x can be, following phis, a parameter of a family
+// helper to what its caller passes, and the result of a family helper to what it returns.
+func (s *applySite) expand(x fnVal) []fnVal {
+	var out []fnVal
+	seen := map[ssa.Value]bool{}
+	var walk func(x fnVal, d int)
+	walk = func(x fnVal, d int) {
+		v := stripIntConv(x.v)
+		if v == nil || seen[v] || d > 12 {
+			return
+		}
+		seen[v] = true
+		switch y := v.(type) {
+		case *ssa.Phi:
+			out = append(out, fnVal{x.fn, y}) // the phi itself is of interest to the maximum test
+			for _, e := range y.Edges {
+				walk(fnVal{x.fn, e}, d+1)
+			}
+			return
+		case *ssa.Parameter:
+			if ci, ok := s.callers[x.fn]; ok {
+				for k, hp := range x.fn.Params {
+					if hp == y && k < len(ci.Common().Args) {
+						walk(fnVal{s.owner[x.fn], ci.Common().Args[k]}, d+1)
+						return
+					}
+				}
+			}
+		case *ssa.Extract:
+			if call, ok := y.Tuple.(*ssa.Call); ok {
+				if g := call.Common().StaticCallee(); g != nil && s.owner[g] != nil {
+					for _, r := range returnsOf(g) {
+						if y.Index < len(r.Results) {
+							walk(fnVal{g, retVal(r, y.Index)}, d+1)
+						}
+					}
+					return
+				}
+			}
+		case *ssa.Call:
+			if g := y.Common().StaticCallee(); g != nil && s.owner[g] != nil {
+				for _, r := range returnsOf(g) {
+					if len(r.Results) > 0 {
+						walk(fnVal{g, retVal(r, 0)}, d+1)
+					}
+				}
+				return
+			}
+		}
+		out = append(out, fnVal{x.fn, v})
+	}
+	walk(x, 0)
 	return out
 }
